@@ -93,6 +93,8 @@ pub fn grammar_value(decl: &Value) -> Value {
             let mut values = Map::new();
             for n in cands {
                 if let Some(back) = enum_from_u32(kind, n) {
+                    let declared = decl["enums"][kind]["values"].as_array().map(|vs| vs.iter().any(|v| v[1].as_u64() == Some(n as u64))).unwrap_or(true);
+                    if !declared { values.insert(key_of(n), json!({"name": "<undeclared discriminant>", "back": jw(back), "aliases": [], "params": [], "caps": [], "exts": []})); continue; }
                     let name = enum_debug(kind, n).unwrap_or_default();
                     let (params, caps, exts) = reflect_of(kind, n);
                     let mut aliases = vec![];
